@@ -137,6 +137,12 @@ EvBlockSnap ==
   /\ NoneStranded(S)
   /\ UNCHANGED <<S, devs>>
 
+(* the server process was stopped and started again on the same directory *)
+EvRestart ==
+  /\ Ev.k = "restart"
+  /\ \E S2 \in Restarted(S, [t0 |-> Ev.t0, t1 |-> Ev.t1]) : S' = S2
+  /\ UNCHANGED devs
+
 EvNote == Ev.k = "note" /\ UNCHANGED <<S, devs>>
 
 EvDropped ==  \* the client saw the server close the connection
@@ -147,7 +153,7 @@ EvDropped ==  \* the client saw the server close the connection
 TraceNext ==
   /\ l <= N
   /\ l' = l + 1
-  /\ (EvOpen \/ EvClose \/ EvReset \/ EvCmd \/ EvNote \/ EvDropped \/ EvUnlogged \/ EvChk \/ EvPush \/ EvQuiesce \/ EvGone \/ EvRaw \/ EvConfig \/ EvServed \/ EvTimeout \/ EvBlockSnap)
+  /\ (EvOpen \/ EvClose \/ EvReset \/ EvCmd \/ EvNote \/ EvDropped \/ EvUnlogged \/ EvChk \/ EvPush \/ EvQuiesce \/ EvGone \/ EvRaw \/ EvConfig \/ EvServed \/ EvTimeout \/ EvBlockSnap \/ EvRestart)
   /\ IF l > TLCGet(1) THEN TLCSet(1, l) /\ TLCSet(3, S') ELSE TRUE   \* deepest matched event (last conjunct!)
 
 TraceSpec == TraceInit /\ [][TraceNext]_vars
@@ -155,8 +161,10 @@ TraceSpec == TraceInit /\ [][TraceNext]_vars
 (* remember the smallest deviation set among accepting end states *)
 AcceptInv ==
   (l = N + 1) =>
-     (IF TLCGet(2) = <<"none">> \/ Cardinality(devs) < Cardinality(TLCGet(2)[2])
-      THEN TLCSet(2, <<"acc", devs>>) ELSE TRUE)
+     /\ (IF TLCGet(2) = <<"none">> \/ Cardinality(devs) < Cardinality(TLCGet(2)[2])
+         THEN TLCSet(2, <<"acc", devs>>) ELSE TRUE)
+     (* an accepting behaviour without any deviation cannot be improved on: stop exploring the other branches *)
+     /\ (IF devs = {} THEN PrintT(<<"TRACE-ACCEPTED", N, <<"acc", {}>>>>) /\ TLCSet("exit", TRUE) ELSE TRUE)
 
 TraceAccepted ==
   LET deepest == TLCGet(1) IN
